@@ -30,7 +30,9 @@ CHECKS = {
                 text='Same model including cyclic graphs, pre-populated initial environments (DONE/FAILED/SKIPPED) and malformed results: TLC '
                      'deadlock freedom, C03_Clean (queue empty and all workers exited when the call comes back), liveness <>Terminated under weak '
                      'fairness; on the code: deadlock / leak / step-bound detection under the deterministic scheduler for every explored '
-                     'schedule, plus real-thread driver processes that must exit by themselves.',
+                     'schedule, plus real-thread driver processes that must exit by themselves. Also: a second schedule() on the same object '
+                     '(Calls = 2), an exception delivered to the master at any scheduling point inside its try block (MInterrupt, injected by '
+                     'the deterministic scheduler), falsy task objects, results whose shape differs from the entry carried in.',
                 note=_SCHED_NOTE + '; one wall-clock assertion (driver process exits within 60 s, expected < 1 s)',
                 technique='TLA+ spec + TLC (safety, deadlock, liveness); deterministic-scheduler exploration of the real code; trace validation'),
     'C04': dict(engine='Runs', also=['Decide'], category='model_checking', design_ref='DESIGN.md §4 C04',
